@@ -20,7 +20,7 @@ ITEM_CLASSES = {'ItemDelete', 'ItemInsert', 'ItemMoveMultiple', 'ItemReplace', '
                 'EAItemDelete', 'EAItemInsert', 'EAItemSwap', 'EAItemMove'}
 
 
-def rich_ro(rng, n_stories, placeholders=False):
+def rich_ro(rng, n_stories, placeholders=False, xrefs=False):
     """nested metadata, attributes, mixed text and tails, repeated item IDs across stories,
     several mosExternalMetadata blocks"""
     kids = ro_head()
@@ -38,6 +38,10 @@ def rich_ro(rng, n_stories, placeholders=False):
             body.append(p('(technical)'))
         st = story(sid, body=body, slug='Story <%s> & co' % sid, meta=payload(duration='%d' % (k + 3)) if rng.random() < 0.6 else None,
                    extra=[E('storyNum', text=str(k))])
+        if xrefs and k == 0 and n_stories > 1:
+            # the first story refers to the later ones (and to item IDs used elsewhere) inside a free-form payload
+            host = st.find('item')
+            (host if host is not None else st).append(gens.cross_refs(gens.STORY_IDS[1:n_stories], gens.ITEM_IDS[:3]))
         st.set('status', 'READY')
         st.tail = '\n'
         kids.append(st)
@@ -93,7 +97,7 @@ class Check(AddCheck):
     def gen(self, tier, rng):
         n = 60 if tier == 'quick' else 600
         for r in range(n):
-            ro = to_text(rich_ro(rng, rng.randrange(1, 5), placeholders=(1 if r % 4 == 1 else 2 if r % 8 == 3 else 0)), pretty=(r % 3 == 0))
+            ro = to_text(rich_ro(rng, rng.randrange(1, 5), placeholders=(1 if r % 4 == 1 else 2 if r % 8 == 3 else 0), xrefs=(r % 3 == 2)), pretty=(r % 3 == 0))
             sids, items = gens.state_ids(ro)
             k = [0]
 
